@@ -6,6 +6,10 @@ package main
 // site hold inside the helper.
 
 import (
+	"go/token"
+	"go/types"
+	"strings"
+
 	"golang.org/x/tools/go/ssa"
 )
 
@@ -163,4 +167,115 @@ func climb(ins ssa.Instruction) ssa.Instruction {
 		return c
 	}
 	return nil
+}
+
+// baseFuncName returns the name the baseline symbol table knows a (possibly renamed) private
+// function or method by; for every other function its own name.
+func baseFuncName(fn *ssa.Function) string {
+	if fn == nil {
+		return ""
+	}
+	if len(funcAlias) == 0 {
+		return fn.Name()
+	}
+	obj, ok := fn.Object().(*types.Func)
+	if !ok {
+		return fn.Name()
+	}
+	key := funcKey(obj)
+	prefix := key[:len(key)-len(fn.Name())]
+	for old, now := range funcAlias {
+		if now == fn.Name() && strings.HasPrefix(old, prefix) && !strings.Contains(old[len(prefix):], ".") {
+			return old[len(prefix):]
+		}
+	}
+	return fn.Name()
+}
+
+// tableCallees resolves a dynamic call whose callee is read, by the index of a `range` loop, from a
+// local array literal of function / method values (`steps := [...]func() error{c.a, c.b}; for _, s
+// := range steps { s() }`): the functions in table order. nil if the call is not of that shape.
+func tableCallees(cc *ssa.CallCommon) []*ssa.Function {
+	if cc == nil || cc.IsInvoke() || cc.StaticCallee() != nil {
+		return nil
+	}
+	var alloc *ssa.Alloc
+	var idx ssa.Value
+	switch x := cc.Value.(type) {
+	case *ssa.Index:
+		if ld, ok := x.X.(*ssa.UnOp); ok && ld.Op == token.MUL {
+			alloc, _ = ld.X.(*ssa.Alloc)
+		}
+		idx = x.Index
+	case *ssa.UnOp:
+		if ia, ok := x.X.(*ssa.IndexAddr); ok && x.Op == token.MUL {
+			alloc, _ = ia.X.(*ssa.Alloc)
+			idx = ia.Index
+		}
+	}
+	if alloc == nil || idx == nil {
+		return nil
+	}
+	// ascending range index: phi + 1
+	bo, ok := idx.(*ssa.BinOp)
+	if !ok || bo.Op != token.ADD {
+		return nil
+	}
+	if _, isPhi := bo.X.(*ssa.Phi); !isPhi {
+		return nil
+	}
+	if k, ok := constInt(bo.Y); !ok || k != 1 {
+		return nil
+	}
+	arr, ok := alloc.Type().Underlying().(*types.Pointer).Elem().Underlying().(*types.Array)
+	if !ok {
+		return nil
+	}
+	slots := make([]*ssa.Function, arr.Len())
+	for _, r := range *alloc.Referrers() {
+		switch x := r.(type) {
+		case *ssa.IndexAddr:
+			k, ok := constInt(x.Index)
+			if !ok || k < 0 || k >= arr.Len() {
+				if x.Index == idx {
+					continue
+				}
+				return nil
+			}
+			for _, r2 := range *x.Referrers() {
+				st, ok := r2.(*ssa.Store)
+				if !ok || st.Addr != ssa.Value(x) || slots[k] != nil {
+					return nil
+				}
+				var fn *ssa.Function
+				switch v := st.Val.(type) {
+				case *ssa.MakeClosure:
+					fn, _ = v.Fn.(*ssa.Function)
+				case *ssa.Function:
+					fn = v
+				}
+				if fn == nil {
+					return nil
+				}
+				if strings.HasSuffix(fn.Name(), "$bound") {
+					if obj, ok := fn.Object().(*types.Func); ok {
+						if m := fn.Prog.FuncValue(obj); m != nil {
+							fn = m
+						}
+					}
+				}
+				slots[k] = fn
+			}
+		case *ssa.UnOp: // whole-array copy for the range
+		case *ssa.DebugRef:
+		default:
+			return nil
+		}
+	}
+	for _, f := range slots {
+		if f == nil {
+			return nil
+		}
+	}
+	return slots
 }
